@@ -625,6 +625,9 @@ func (sc *scen) act(r *rand.Rand) {
 			c.aborted[id] = true
 		} else {
 			c.override[id] = kinds
+			// a per-stream request that selects something makes the publisher push the
+			// stream again: an earlier abort (or empty selection) of it is over
+			delete(c.aborted, id)
 		}
 		c.c.Send(vclient.Msg{"type": "requestStream", "id": id, "request": kinds})
 		sc.run.Count("requestStream", 1)
@@ -688,8 +691,13 @@ func (sc *scen) act(r *rand.Rand) {
 		sc.endStreamsOf(c, "publisher left")
 		if c.c.Leave(c.group) {
 			c.joined = false
-			// a client that leaves closes its own down streams (the server drops them silently)
+			// a client that leaves closes its own down streams (the server drops them silently);
+			// per-stream requests and aborts die with them, whatever happens before the next check
 			c.p.CloseAllDowns()
+			c.override = map[string][]string{}
+			c.aborted = map[string]bool{}
+			c.maybe = map[string][]string{}
+			c.held = map[string]bool{}
 		}
 		sc.run.Count("leaves", 1)
 	case x < 87:
